@@ -383,6 +383,9 @@ def run(ctx):
                 live.add(f"{op[3] or 'r'}_{rng.randint(1, 5)}")
         check_sequence(ctx, ops, "random")
         ctx.count("random_sequences")
+    if not ctx.quick and ctx.shard == 0:
+        from vmon import suite
+        suite.run_under(ctx, "c15")  # the repository's own tests with this monitor installed
 
 
 def replay(ctx, v):
